@@ -22,10 +22,19 @@ impl IgnorePathSet {
     pub(crate) fn is_match(&self, file_name: &FileName) -> bool {
         match file_name {
             FileName::Stdin => false,
-            FileName::Real(p) => self
-                .ignore_set
-                .matched_path_or_any_parents(p, false)
-                .is_ignore(),
+            FileName::Real(p) => {
+                // The patterns are relative to the directory of the configuration file
+                // (which may be the user's home or `--config-path`): an absolute path
+                // outside of that directory matches none of them, and
+                // `matched_path_or_any_parents` panics when it is given one.
+                let root = self.ignore_set.path();
+                if p.has_root() && p.strip_prefix(root).map_or(true, |rest| rest.has_root()) {
+                    return false;
+                }
+                self.ignore_set
+                    .matched_path_or_any_parents(p, false)
+                    .is_ignore()
+            }
         }
     }
 }
